@@ -594,9 +594,47 @@ pub fn oracle_decoders(rng: &mut Rng, n: usize, tier: &str) -> OracleReport {
             check_decoders(&mut rep, &e2);
         }
     }
+    // over-long size prefixes with the complete payload: a k-byte prefix used for a length that a
+    // shorter prefix can hold (just below each row of the minimum-size table, and far below it), and the
+    // same prefix at its smallest legitimate length; alone and as one element of a pair
+    let mins: [u64; 7] = [0, 1, 1 << 6, 1 << 13, 1 << 20, 1 << 27, 1 << 34];
+    let cap: u64 = if tier == "thorough" { 1 << 27 } else { 1 << 21 };
+    for k in 2..=6usize {
+        let mut lens = vec![0u64, 1, 0x3f, mins[k - 1], mins[k] / 2 - 1, mins[k] / 2, mins[k] - 1, mins[k], mins[k] + 1];
+        lens.push(mins[k - 1] + rng.below(mins[k] - mins[k - 1]));
+        lens.sort();
+        lens.dedup();
+        for l in lens {
+            if l > cap {
+                continue;
+            }
+            let mut buf = overlong_prefix(k, l);
+            let plen = buf.len();
+            buf.resize(plen + l as usize, 0x5a);
+            if l > 0 {
+                buf[plen] = 0x01;
+            }
+            check_decoders(&mut rep, &buf);
+            let mut pair = vec![0xffu8];
+            pair.extend_from_slice(&buf);
+            pair.push(0x80);
+            check_decoders(&mut rep, &pair);
+        }
+    }
     for _ in 0..n {
         let b = mutated_input(rng);
         check_decoders(&mut rep, &b);
     }
     rep
+}
+
+/// the k-byte size prefix (k = 2..6) carrying length `l`, whether or not k is the minimal choice
+fn overlong_prefix(k: usize, l: u64) -> Vec<u8> {
+    let lead: [u8; 7] = [0, 0x80, 0xc0, 0xe0, 0xf0, 0xf8, 0xfc];
+    let mut out = vec![0u8; k];
+    for i in 0..k {
+        out[k - 1 - i] = (l >> (8 * i)) as u8;
+    }
+    out[0] |= lead[k];
+    out
 }
